@@ -636,6 +636,11 @@ async fn exec_op(w: &Rc<World>, sidx: usize, opi: usize, op: &AppOp, sink: &v3::
             sink.close();
             OpResult::Ok(AckInfo::none("close"))
         }
+        AppOp::CloseTwice(_) => {
+            sink.close();
+            sink.close();
+            OpResult::Ok(AckInfo::none("close_twice"))
+        }
         AppOp::ForceClose => {
             sink.force_close();
             OpResult::Ok(AckInfo::none("force_close"))
